@@ -18,6 +18,9 @@ def op_configs(tier):
     add("fixed-size E (all-control row)", op="fixed", fam="E", R=6, pmax=3)
     add("balanced hold-out E (all-control row)", op="holdout", fam="E", R=5)
     add("segregating A", op="segr", fam="A", R=5, pmax=3)
+    add("permutation A, screen object used a second time after an in-place reveal", op="perm", fam="A", R=5, force=None, reuse=True)
+    add("fixed-size A, screen object used a second time after an in-place reveal", op="fixed", fam="A", R=5, pmax=3, reuse=True)
+    add("segregating B, screen object used a second time after an in-place reveal", op="segr", fam="B", R=4, pmax=3, reuse=True)
     add("segregating B", op="segr", fam="B", R=4 if q else 5, pmax=3)
     add("pairwise D", op="pair", fam="D", R=4 if q else 6)
     add("pairwise H (single-agent rows for the last sample only)", op="pair", fam="H", R=6 if q else 7)
@@ -44,6 +47,7 @@ def op_configs(tier):
     add("hold-out fraction outside [0,1]", op="badfraction", fam="A", R=3)
     add("combination filter D", op="combofilter", fam="D", R=7)
     add("combination filter A", op="combofilter", fam="A", R=7)
+    add("combination filter, three treatment columns", op="combofilter", fam="T3", R=8)
     if True:
         from .retro_common import family
         # quick: the two largest small structures (ten rows on six plates, repeated sizes); thorough: 64 structures
@@ -69,6 +73,23 @@ def op_configs(tier):
 
 
 N_GENERATED = 64
+
+
+def _first_use_then_reveal(ctx, screen, rows, mask, tags, use):
+    """the screen object is prepared once, one of its unobserved plates is then marked observed in place (set_observed with
+    the stored values), and the operation under test is applied to the same object again"""
+    np = ctx.np
+    try:
+        use()
+    except ValueError:
+        pass
+    unobs = sorted({r[5] for i, r in enumerate(rows) if not mask[i]})
+    if not unobs:
+        return mask
+    p = unobs[int(ctx.int("reveal_plate", 0, len(unobs) - 1))]
+    sel = [r[5] == p for r in rows]
+    screen.set_observed(np.array(sel, dtype=bool), np.array([tags[i] for i in range(len(rows)) if sel[i]], dtype=float))
+    return [m or sel[i] for i, m in enumerate(mask)]
 
 
 def _plates_of(t, only_unobserved=True):
@@ -100,6 +121,8 @@ def run_op(ctx, cfg, want11, want13):
             sub = int(ctx.int("subset_size", 1, 2))
             anc = int(ctx.int("anchor_size", 0, 1))
             g = retro.PairwisePlateGenerator(subset_size=sub, anchor_size=anc)
+        if cfg.get("reuse"):
+            mask = _first_use_then_reveal(ctx, screen, rows, mask, tags, lambda: g.generate_plates(screen, ctx.rng("R0")))
         try:
             out = g.generate_plates(screen, rng)
         except ValueError:
@@ -145,6 +168,8 @@ def run_op(ctx, cfg, want11, want13):
             params = dict(min_size=int(ctx.int("min_size", 1, 3)), n_iterations=int(ctx.int("n_iterations", 0, 1)),
                           min_n_cell_line_plates=int(ctx.int("min_n", 1, 2)))
             s = retro.BatchieEnsemblePlateSmoother(**params)
+        if cfg.get("reuse"):
+            mask = _first_use_then_reveal(ctx, screen, rows, mask, tags, lambda: s.smooth_plates(screen, ctx.rng("R0")))
         before = _plates_of(dict(pn=[r[5] for r in rows], mask=mask))
         out = s.smooth_plates(screen, rng)
         idx, attrs_ok, t = match_rows(ctx, out, rows, tags)
@@ -276,6 +301,29 @@ def run_op(ctx, cfg, want11, want13):
             except ValueError:
                 ctx.prove(True, "fraction outside [0,1] is refused")
         return 0
+
+    if op == "combofilter" and fam == "T3":
+        # three treatment columns: full combinations, partial combinations (one control), single agents and a vehicle-only row
+        rows3 = [("s1", ["a", "b", "c"], [1.0, 1.0, 1.0]), ("s1", ["d", "e", ""], [1.0, 1.0, 0.0]), ("s1", ["a", "e", ""], [1.0, 1.0, 0.0]),
+                 ("s2", ["d", "", ""], [1.0, 0.0, 0.0]), ("s2", ["a", "", "b"], [1.0, 0.0, 1.0]), ("s1", ["", "", ""], [0.0, 0.0, 0.0]),
+                 ("s2", ["c", "b", "a"], [1.0, 1.0, 1.0]), ("s2", ["b", "", ""], [1.0, 0.0, 0.0])][:R]
+        obs = [ctx.real("ob%d" % i, positive=True) for i in range(len(rows3))]
+        for i in range(len(rows3)):
+            for j in range(i):
+                ctx.assume(obs[i] != obs[j], "observation tags pairwise distinct")
+        screen = data.Screen(treatment_names=np.array([r[1] for r in rows3], dtype=str), treatment_doses=np.array([r[2] for r in rows3], dtype=float),
+                             sample_names=np.array([r[0] for r in rows3], dtype=str), plate_names=np.array(["p"] * len(rows3), dtype=str),
+                             observations=np.array(obs, dtype=float), observation_mask=np.array([True] * len(rows3), dtype=bool), control_treatment_name="")
+        out = data.filter_dataset_to_treatments_that_appear_in_at_least_one_combo(screen)
+        got = [tag_index(ctx, v, obs) for v in out.observations.tolist()]
+        tid = screen.treatment_ids.tolist()
+        in_combo = {x for r in tid if all(v != -1 for v in r) for x in r}
+        want = [i for i in range(len(rows3)) if all((v == -1) or (v in in_combo) for v in tid[i])]
+        P11(None not in got and len(set(got)) == len(got), "combination filter keeps a sub-collection of unchanged experiments",
+            key="combofilter: experiment invented or altered")
+        P13(sorted(got) == want if None not in got else False,
+            "combination filter keeps exactly the experiments all of whose treatments occur in some full combination", key="combofilter: wrong rows kept")
+        return len(got)
 
     if op == "combofilter":
         screen, rows, tags, mask = build(ctx, fam, R, all_observed=True)
